@@ -680,7 +680,9 @@ def r08_6(run):
         ns = {cfg2.stmt_node_containing(c) for c in base_locks}
         ns.discard(None)
         rn2 = cfg2.node_for(r)
-        ok = bool(ns) and rn2 is not None and cfg2.set_dominates(ns, rn2)
+        if rn2 is None or not cfg2.reachable(rn2):
+            continue  # this return belongs to another mode (e.g. an early exit when the guard is off)
+        ok = bool(ns) and cfg2.set_dominates(ns, rn2)
         run.ob("R08.6", loc(fi, base_locks[0]), fi.short, f"base of an out= view target is locked whenever out is given and the result has a base", ok,
                "under {out is not None, result.data.base is not None} the base lock cuts every path to the return" if ok else
                "an extra condition can skip the lock of the out= target's base (e.g. 'already tracked'): its count is then one short and the "
